@@ -1,6 +1,12 @@
 package websocket
 
-import "time"
+import (
+	"net/http"
+	"net/url"
+	"time"
+
+	"github.com/lesismal/nbio/mempool"
+)
 
 // C16 (WebSocket keep-alive site): every received message renews the read
 // deadline to now + KeepaliveTime.
@@ -24,5 +30,56 @@ func verifHarness_C16_ws_keepalive_renewal() {
 		verifAssertD(d >= before+int64(ka), "keepalive-deadline-not-early", "")
 		verifAssertD(d <= after+int64(ka), "keepalive-deadline-is-now-plus-keepalive", "")
 	}
+	verifAssert(false, "witness")
+}
+
+// the hand-over at the upgrade: the HTTP engine armed its keep-alive read
+// deadline on the connection; after the real Upgrade that deadline is either
+// replaced by the WebSocket keep-alive (now + KeepaliveTime) or, with
+// KeepaliveTime == 0, CLEARED — no stale HTTP timer may close the WebSocket.
+func verifHarness_C16_ws_upgrade_takes_over_the_read_deadline() {
+	eng := verifWsEngine(mempool.New(64, 1<<20))
+	DefaultEngine = eng
+	u := NewUpgrader()
+	u.Engine = eng
+	noKeepalive := verifChoose("keepalive_zero", 2) == 1
+	ka := verifInt("keepalive_ns", 1, 1000000000)
+	if noKeepalive {
+		u.KeepaliveTime = 0
+	} else {
+		u.KeepaliveTime = time.Duration(ka)
+	}
+	conn := &verifReadConn{}
+	conn.failAt = -1
+	// what the HTTP engine did at accept
+	_ = conn.SetReadDeadline(time.Unix(0, verifNow()).Add(120 * time.Second))
+	w := &verifHijackWriter{conn: conn, hdr: http.Header{}}
+	r := &http.Request{Method: "GET", Header: http.Header{}, URL: &url.URL{Path: "/ws"}, Host: "h"}
+	r.Header.Set("Connection", "Upgrade")
+	r.Header.Set("Upgrade", "websocket")
+	r.Header.Set("Sec-Websocket-Version", "13")
+	r.Header.Set("Sec-Websocket-Key", "dGhlIHNhbXBsZSBub25jZQ==")
+	verifSched(true, 1)
+	before := verifNow()
+	wsc, err := u.Upgrade(w, r, nil)
+	after := verifNow()
+	verifAssertD(err == nil && wsc != nil, "upgrade-succeeds", "deadline")
+	if err != nil {
+		return
+	}
+	n := len(conn.deadlines)
+	verifAssertD(n >= 2, "upgrade-sets-the-read-deadline", "")
+	if n >= 2 {
+		last := conn.deadlines[n-1]
+		if noKeepalive {
+			verifAssertD(last.IsZero(), "no-stale-timer", "http-keepalive-deadline-cleared-at-upgrade")
+		} else {
+			d := last.UnixNano()
+			verifAssertD(d >= before+int64(ka), "keepalive-deadline-not-early", "upgrade")
+			verifAssertD(d <= after+int64(ka), "keepalive-deadline-is-now-plus-keepalive", "upgrade")
+		}
+	}
+	conn.closed = true
+	verifJoin()
 	verifAssert(false, "witness")
 }
